@@ -33,6 +33,19 @@ fn p_cbox_lifecycle() {
     kani::cover!(how == 2 && end == 2, "tuple ctor + into_inner");
 }
 #[kani::proof]
+fn p_cbox_plain_payload() {
+    // a payload WITHOUT destructor: nothing to count, but its memory must still be released
+    // (harness-end leak obligation) and a release function must be stored
+    let v: u64 = kani::any();
+    let b: CBox<[u64; 8]> = CBox::from([v; 8]);
+    assert!(b[7] == v && b.drop_fn.is_some(), "C06 a box over a plain payload carries its release function");
+    if kani::any() { drop(b); } else { let o = b.into_opaque(); drop(o); }
+    let sb = CSliceBox::from(std::vec![v, v ^ 1].into_boxed_slice());
+    assert!(sb[1] == v ^ 1 && sb.drop_fn.is_some());
+    drop(sb);
+    kani::cover!(true, "end");
+}
+#[kani::proof]
 fn p_cbox_zst() {
     let b = CBox::from(Zd);
     let end: bool = kani::any();
